@@ -19,3 +19,62 @@ claim('C08',
 na('C06', 'every clause is a value relation over runtime integers and regex matches (which spans come out for given '
           'sites, bounds and missed-cleavage counts); no structural necessary condition visible in the code shape; '
           'deciding it needs execution or a solver, which is another technique family (DESIGN.md section 5)')
+
+claim('C02',
+      'mode-flag forwarding + backward slices over the mass call graph, accumulator discipline, path polynomials '
+      '(affine normal forms), constant-table evaluation against an outside reference',
+      'Decides structural necessary conditions of C02 for every input at once: the monoisotopic/average switch is '
+      'forwarded at every resolved call of the mass call graph; mass() reads every modification-bearing field and '
+      'adds (+=) every mod_mass result into the accumulator returned through adjust_mass (residue-count factor on '
+      'static rules, multiplier at the Mod unwrap); charge, ion_type, isotope, loss, charge_adducts, monoisotopic '
+      'are in the backward slice of every value return of mass/mz/adjust_mass/adjust_mz/chem_mass; mono/average '
+      'tables are paired wherever the switch selects between tables; per syntactic path adjust_mass returns one of '
+      'the six reference affine forms; adduct mass is homogeneous in the ion count; residue compositions, termini, '
+      'particle masses and 15 isotope masses equal CODATA/NIST references; derived float tables are comprehensions '
+      'over the right composition table in the promised mode. These are the input classes the suite never visits '
+      '(average mode x named modification, loss x isotope label, counts != 1).',
+      'Not decided: numeric agreement to 1e-5/2e-3 Da for every input, float summation order, every Unimod row. '
+      'Known finding: _parse_adduct_mass is not homogeneous in the ion count (two doctests pin the wrong values).',
+      'DESIGN.md section 4 C02')
+
+claim('C03',
+      'sibling-table evaluation (adduct grammar interpreter vs composition table), accumulator parity with '
+      'control-dependence guards, forwarding, dispatch-order comparison of the two resolvers',
+      'Decides the points where the two calculators keep one quantity twice: every ion type\'s charge carrier as '
+      'adduct string vs as composition (exact), equal key sets and merged tables, derived float tables; the same '
+      'modification fields feed the three accumulators and the labile contribution is control-dependent on '
+      'ion_type == p in all three; call order condense -> split -> composition in comp_mass; adduct mass degree; '
+      'forwarding of monoisotopic/use_isotope_on_mods/isotope_mods/charge_adducts/ion_type/isotope/charge between '
+      'the calculators; both Mod unwrap sites scale by the multiplier; estimate_comp and ISOTOPIC_AVERAGINE_MASS '
+      'range over the same ratio table; particle keys e/p/n map to their constants; proton mass vs H+ composition; '
+      'the mass and composition resolvers test the same vocabularies in the same order.',
+      'Not decided: numeric agreement for every annotation, averagine estimation error, table data values. '
+      'Known finding shared with C02 (adduct mass for counts != 1).',
+      'DESIGN.md section 4 C03')
+
+claim('C05',
+      'exact integer-vector identities on the evaluated composition tables + path polynomials of the offset '
+      'application',
+      'The series relation is linear, so it splits into table identities and an application shape, both decided '
+      'for all peptides at once: b+y = M+2H+, a=b-CO, c=b+NH3, x=y+CO-H2, z=y-NH3, immonium=residue-CO+H+, by/ay/cy, '
+      'pairing END[f]+START[b] for all nine internal types, every ion singly charged, series sets partition the '
+      'valid ion types (evaluated from constants.py, compared with reference chemistry in the checker); per '
+      'syntactic path adjust_mass = base + ADJ[ion] + charge carrier + isotope*neutron + loss with (charge-1) '
+      'protons + ion offset for fragments; adjust_mz = m/charge; _build_fragments feeds '
+      'sum(components[start:stop]) and the loop elements of charges/ion_types/isotopes/losses.',
+      'Not decided: hydrogen bookkeeping of internal ions with an x/z N-terminus (not fixed by the statement); '
+      'numeric values to 1e-5 Da (depend on chem.txt; listed isotopes are checked under C02).',
+      'DESIGN.md section 4 C05')
+
+claim('C10',
+      'writer/reader prefix-table extraction, strip-idiom classification against a data fact recomputed from the '
+      'bundled OBO files, dispatch-order comparison, look-up-order extraction',
+      'Decides: per vocabulary the prefixes recognised, stripped and listed in the delta-mass parser are the same '
+      'set, tested case-folded; a prefix stripper keeps the whole remainder after the first colon whenever the '
+      'vocabulary\'s bundled name table contains a colon (215 of 1523 Unimod names today); mass and composition '
+      'resolvers test the same vocabularies with tag-strip, number, PSI-MOD, Unimod in the same order and both take '
+      'the first resolvable | alternative; id -> name (-> synonym) look-up order in both resolvers; monoisotopic '
+      'forwarded through the vocabulary resolvers; both unwrap sites scale by the multiplier.',
+      'Not decided: that each of ~4600 rows gives the same number through each spelling; numeric self-consistency '
+      'of tabulated mass vs composition (data values).',
+      'DESIGN.md section 4 C10')
